@@ -307,6 +307,11 @@ func (hs *clientHandshakeStateGM) doFullHandshake() error {
 		if err != nil {
 			return err
 		}
+	} else {
+		// GM/T 0024: the ServerKeyExchange carries the signature that proves possession
+		// of the signing key, a server that omits it is not authenticated.
+		c.sendAlert(alertUnexpectedMessage)
+		return unexpectedMessageError(skx, msg)
 	}
 
 	var chainToSend *Certificate
